@@ -41,6 +41,8 @@ def blocks(tier, seed):
     for n in range(1, 11):
         add_cart((n,), via_field=n <= 6)
     add_cart((3, 3), via_field=True)
+    for mask in itertools.product((False, True), repeat=2):  # the same images on a UnitGrid object
+        out.append({"grid": dict(cart((3, 3), mask), unit=True), "prefix": [], "via_field": True})
     add_cart((3, 4), npre=1)
     add_cart((4, 3), npre=1)
     add_cart((3, 4), dx=[1.6, 0.5], origin=[-3.7, 2.25], npre=1)
